@@ -20,7 +20,10 @@ fn readers(rows: &[Tx]) -> Vec<DescribedReader> {
 }
 
 pub fn run_case(id: &str, r: &mut Rng, out: &mut String) {
-    let c = app::gen_case(r);
+    let mut c = app::gen_case(r);
+    if r.chance(8) {
+        app::add_twin_failures(&mut c, r);
+    }
     let inits = c.inits.clone();
     let reference = app::run_app(&c.rows, &[], &inits);
     let Ok(Ok(by_sec)) = &reference else { return };
